@@ -34,8 +34,9 @@ type nodeSpec struct {
 }
 
 type resumeSpec struct {
-	Kind    string       `json:"kind"` // msg | timeout | expiration
+	Kind    string       `json:"kind"` // msg | timeout | expiration  (+same: refreshed contact = the session contact)
 	Refresh *contactSpec `json:"refresh,omitempty"`
+	Tweak   string       `json:"tweak,omitempty"` // refreshed contact = the session contact with this one member changed
 }
 
 type sprintInput struct {
@@ -276,11 +277,14 @@ func genSprintInput(r *hx.Rand) *sprintInput {
 		if r.Chance(1, 10) {
 			rs.Kind = "expiration"
 		}
-		if r.Chance(2, 5) {
-			rs.Refresh = validURNsOnly(genContact(r, uni))
-			if r.Chance(1, 3) { // a refreshed contact equal to what the caller would have stored: no contact_refreshed
-				rs.Refresh = nil
+		if r.Chance(1, 2) {
+			switch r.Intn(5) {
+			case 0, 1:
+				rs.Refresh = validURNsOnly(genContact(r, uni))
+			case 2: // a refreshed contact equal to what the caller would have stored: no contact_refreshed
 				rs.Kind += "+same"
+			default: // ... or differing from it in one member only
+				rs.Tweak = hx.Pick(r, tweaks)
 			}
 		}
 		in.Resumes = append(in.Resumes, rs)
@@ -389,6 +393,10 @@ func runSprintCase(res *hx.Result, in *sprintInput, sh *sharder) error {
 			}
 			obs.refreshC, _ = u.buildContact(rs.Refresh)
 			obs.class += "+refreshed-contact"
+		} else if rs.Tweak != "" {
+			js := tweakContact(u, toMap(session.Contact()), rs.Tweak)
+			refresh, obs.refreshC = contactFromJSON(u, js), contactFromJSON(u, js)
+			obs.class += "+contact-differing-in:" + rs.Tweak
 		} else if strings.HasSuffix(rs.Kind, "+same") {
 			refresh = session.Contact().Clone()
 			obs.refreshC = session.Contact().Clone()
@@ -419,6 +427,67 @@ func runSprintCase(res *hx.Result, in *sprintInput, sh *sharder) error {
 	}
 	return nil
 }
+
+func contactFromJSON(u *universe, m map[string]any) *flows.Contact {
+	b, _ := json.Marshal(m)
+	c, err := flows.ReadContact(u.sa, b, noMissing)
+	if err != nil {
+		panic(err)
+	}
+	return c
+}
+
+// tweakContact changes exactly one member of a marshalled contact
+func tweakContact(u *universe, m map[string]any, what string) map[string]any {
+	switch what {
+	case "status":
+		m["status"] = map[string]string{"active": "blocked", "blocked": "stopped", "stopped": "archived", "archived": "active"}[m["status"].(string)]
+	case "groups":
+		ref := map[string]any{"uuid": groupUUID(1), "name": u.spec.Groups[1].Name}
+		gs, _ := m["groups"].([]any)
+		out := []any{}
+		found := false
+		for _, g := range gs {
+			if g.(map[string]any)["uuid"] == groupUUID(1) {
+				found = true
+			} else {
+				out = append(out, g)
+			}
+		}
+		if !found {
+			out = append(out, ref)
+		}
+		m["groups"] = out
+	case "field":
+		fs, _ := m["fields"].(map[string]any)
+		if fs == nil {
+			fs = map[string]any{}
+		}
+		if v, ok := fs["gender"].(map[string]any); ok && v["text"] == "zz" {
+			fs["gender"] = map[string]any{"text": "yy"}
+		} else {
+			fs["gender"] = map[string]any{"text": "zz"}
+		}
+		m["fields"] = fs
+	case "timezone":
+		if m["timezone"] == "Africa/Kigali" {
+			delete(m, "timezone")
+		} else {
+			m["timezone"] = "Africa/Kigali"
+		}
+	case "ticket":
+		if m["ticket"] != nil {
+			delete(m, "ticket")
+		} else {
+			m["ticket"] = map[string]any{"uuid": "e0000000-0000-4000-8000-000000000009", "topic": map[string]any{"uuid": topicUUIDs[1], "name": "Support"}}
+		}
+	case "last_seen":
+		m["last_seen_on"] = "2001-01-01T00:00:00Z"
+	}
+	return m
+}
+
+var tweaks = []string{"status", "groups", "field", "timezone", "ticket", "last_seen"}
 
 var statePaths = []string{"Rwanda > Kigali City", "Rwanda > Eastern Province"}
 var districtPaths = []string{"Rwanda > Kigali City > Gasabo", "Rwanda > Kigali City > Nyarugenge", "Rwanda > Eastern Province > Rwamagana"}
@@ -582,6 +651,8 @@ func sprintCorpus() []*sprintInput {
 			{Actions: []*modSpec{{Kind: "status", Text: "stopped"}, {Kind: "groups", Mode: "add", Groups: []int{1}}}, Wait: "msg"}, {Actions: []*modSpec{{Kind: "urns", Mode: "append", URNs: []string{"telegram:777"}}}}},
 			Resumes: []resumeSpec{{Kind: "msg", Refresh: blocked}, {Kind: "msg+same"}}},
 		{Universe: uni, Contact: jim(), Trigger: "msg", Nodes: []nodeSpec{{Wait: "msg"}, {Actions: []*modSpec{{Kind: "groups", Mode: "remove_all"}}}}, Resumes: []resumeSpec{{Kind: "expiration", Refresh: refreshed}}},
+		{Universe: uni, Contact: jim(), Trigger: "manual", Nodes: []nodeSpec{{Wait: "msg"}, {Wait: "msg"}, {Wait: "msg"}, {Wait: "msg"}, {Wait: "msg"}, {Wait: "msg"}, {}},
+			Resumes: []resumeSpec{{Kind: "msg", Tweak: "status"}, {Kind: "msg", Tweak: "groups"}, {Kind: "msg", Tweak: "field"}, {Kind: "msg", Tweak: "timezone"}, {Kind: "msg", Tweak: "ticket"}, {Kind: "msg", Tweak: "last_seen"}}},
 	}
 }
 
